@@ -90,9 +90,16 @@ func cmtBuild(p cmtPoint) (src string, fail string) {
 	}
 	cb.SetComments(nil, false)
 	cb.End()
-	var out bytes.Buffer
+	var out, again bytes.Buffer
 	if err := pkg.WriteTo(&out); err != nil {
 		return "", "WriteTo: " + err.Error()
+	}
+	// writing is an observation: the same package written twice gives the same text (each comment once, both times)
+	if err := pkg.WriteTo(&again); err != nil {
+		return "", "second WriteTo: " + err.Error()
+	}
+	if out.String() != again.String() {
+		return out.String(), "second-write-differs"
 	}
 	return out.String(), ""
 }
@@ -195,6 +202,10 @@ func cmtExpected(p cmtPoint) []string {
 func cmtCheck(run *ev.Run, p cmtPoint) {
 	run.Eval("comments:" + p.opsText())
 	src, fail := cmtBuild(p)
+	if fail == "second-write-differs" {
+		run.Fail("comments/second-write-differs/"+cmtClass(p), fmt.Sprintf("%s: writing the package a second time gives another text (comments printed by the first write are gone or doubled)", p.opsText()), p)
+		return
+	}
 	if fail != "" {
 		run.Fail("comments/build-fails/"+p.shape(), fmt.Sprintf("%s on %s", fail, p.opsText()), p)
 		return
